@@ -709,7 +709,7 @@ def plan(ctx):
     runs = []
     for i, ch in enumerate(_chunks(sh, 15 if th else 7)):
         runs.append((f"contain/{i}", dict(ops={"contain"}, shapes=ch, rots=rots, G=G)))
-    for i, ch in enumerate(_chunks(sh, 8 if th else 3)):
+    for i, ch in enumerate(_chunks(sh, 10 if th else 5)):
         runs.append((f"border/{i}", dict(ops={"border"}, shapes=ch, rots=rots, G=1)))
     cl = cluster_domain(th)
     crots = all_rots() if th else [0, 30, -90, 570]
@@ -901,6 +901,18 @@ def run(ctx):
     # ---- stage T
     from . import c19_trace
     c19_trace.run(ctx)
+    # report one example of every kind of failure first (only the first few are written out)
+    groups = {}
+    for v in ctx.violations:
+        k = (v["what"].split("]")[0] if v["what"].startswith("[") else "", v["case"].get("kind"),
+             (v["case"].get("edge") or {}).get("post", {}).get("op"))
+        groups.setdefault(k, []).append(v)
+    order = []
+    while any(groups.values()):
+        for k in list(groups):
+            if groups[k]:
+                order.append(groups[k].pop(0))
+    ctx.violations = order
 
 
 def _expected_cases(kw):
